@@ -51,10 +51,15 @@ corpus_impl!(P1T, str, P1_DEF, |t| match t { P1T::NumX => 1, P1T::AltD => 2, P1T
 #[logos(utf8 = false)]
 #[logos(subpattern hi = b"[\\x80-\\xff]")]
 #[logos(subpattern lo = "[a-c]")]
+#[logos(subpattern any = ".")]
+#[logos(subpattern nota = "[^a]")]
 pub enum P2 {
     #[regex(b"x(?&hi)")] XHi,
     #[regex(b"(?&lo)(?&hi)(?&lo)")] LoHiLo,
     #[regex("(?&lo)+!")] LoBang,
+    // str subpatterns with Unicode-sensitive constructs, referenced from byte-string regexes: they keep their own (?u:...) mode
+    #[regex(b"y(?&any)")] YAny,
+    #[regex(b"z(?&nota)\\xff")] ZNotA,
 }
 #[derive(Logos, Debug, PartialEq, Clone, Copy)]
 #[logos(utf8 = false)]
@@ -62,6 +67,8 @@ pub enum P2T {
     #[regex(b"x(?-u:[\\x80-\\xff])")] XHi,
     #[regex(b"(?u:[a-c])(?-u:[\\x80-\\xff])(?u:[a-c])")] LoHiLo,
     #[regex("(?u:[a-c])+!")] LoBang,
+    #[regex(b"y(?u:.)")] YAny,
+    #[regex(b"z(?u:[^a])\\xff")] ZNotA,
 }
 const HI: P = P::Class(&[(0x80, 0xFF)]);
 const LO: P = P::Class(&[(b'a', b'c')]);
@@ -71,10 +78,12 @@ pub static P2_DEF: Def = Def {
         Pat { p: P::Cat(&[P::Lit(b"x"), HI]), prio: 4, act: Act::Tok(1) },
         Pat { p: P::Cat(&[LO, HI, LO]), prio: 6, act: Act::Tok(2) },
         Pat { p: P::Cat(&[P::Plus(&LO), P::Lit(b"!")]), prio: 4, act: Act::Tok(3) },
+        Pat { p: P::Cat(&[P::Lit(b"y"), ANY_BUT_LF]), prio: 4, act: Act::Tok(4) },
+        Pat { p: P::Cat(&[P::Lit(b"z"), P::Alt(&[P::Class(&[(0x00, b'a' - 1), (b'a' + 1, 0x7F)]), NON_ASCII_CHAR]), P::Lit(b"\xff")]), prio: 6, act: Act::Tok(5) },
     ],
 };
-corpus_impl!(P2, bytes, P2_DEF, |t| match t { P2::XHi => 1, P2::LoHiLo => 2, P2::LoBang => 3 }, |_e| 0, |_x| (0, true, 0, 0));
-corpus_impl!(P2T, bytes, P2_DEF, |t| match t { P2T::XHi => 1, P2T::LoHiLo => 2, P2T::LoBang => 3 }, |_e| 0, |_x| (0, true, 0, 0));
+corpus_impl!(P2, bytes, P2_DEF, |t| match t { P2::XHi => 1, P2::LoHiLo => 2, P2::LoBang => 3, P2::YAny => 4, P2::ZNotA => 5 }, |_e| 0, |_x| (0, true, 0, 0));
+corpus_impl!(P2T, bytes, P2_DEF, |t| match t { P2T::XHi => 1, P2T::LoHiLo => 2, P2T::LoBang => 3, P2T::YAny => 4, P2T::ZNotA => 5 }, |_e| 0, |_x| (0, true, 0, 0));
 
 // ------------------------------------------------------------------------------------------------ C12
 // M1 (str) is utf8::U1 ; M1B is the same definition with utf8 = false
@@ -204,3 +213,16 @@ pub static Q1_DEF: Def = Def {
 };
 fn q1_decide(_k: u8, _inp: &[u8], _s: usize, _e: usize) -> Decision { Decision::Skip }
 corpus_impl!(Q1, str, Q1_DEF, |t| match t { Q1::Accessor => 1, Q1::Ellipsis => 2 }, |_e| 0, |_x| (0, true, 0, 0));
+
+/// look-around: a word boundary decides between Int and Dimension; only used by the relational partial-lexing harness
+/// (the specification combinators have no assertions, so this definition has no pattern table)
+#[derive(Logos, Debug, Clone, Copy, PartialEq)]
+pub enum Q2 {
+    #[regex(r"[0-9]+(?-u:\b)")] Int,
+    #[regex("[0-9]+[a-z]+")] Dimension,
+    #[regex("[a-z]+")] Ident,
+    #[token(" ")] Space,
+    #[regex(r"x$", priority = 5)] XAtEnd,
+}
+pub static Q2_DEF: Def = Def { name: "Q2", utf8: true, decide: no_callbacks, log_callbacks: false, default_err: plain_default, pats: &[] };
+corpus_impl!(Q2, str, Q2_DEF, |t| match t { Q2::Int => 1, Q2::Dimension => 2, Q2::Ident => 3, Q2::Space => 4, Q2::XAtEnd => 5 }, |_e| 0, |_x| (0, true, 0, 0));
